@@ -8,9 +8,15 @@ import H3.Model.Varint
 
     A verdict is `ok` (no connection error may be raised), `must cs` (a connection error with one
     of the codes `cs` must be raised: where two rules of the RFC apply to the same situation either
-    code is accepted, R-04) or `may cs` (the property does not constrain the situation — identifier
-    rules of GOAWAY/MAX_PUSH_ID/CANCEL_PUSH (C08), push streams, the WebTransport signal value on a
-    control stream — so no error or one of `cs` are both accepted). -/
+    code is accepted, R-04) or `may cs` (the property does not constrain the situation, so no error
+    or one of `cs` are both accepted).  `may` is used for exactly these (reading R-04b, DESIGN.md
+    section 9): the rules of *server push*, which the property's text does not name and h3 does not
+    implement — a push stream (§6.2.2, §4.6), CANCEL_PUSH (§7.2.3), a MAX_PUSH_ID that goes down
+    (§7.2.7) —, the WebTransport signal value used as a frame type on a control stream, and the
+    endpoint's own streams before it has to write on them (`ownStopped`).  `verdictRfc` below is the
+    table with the RFC's demands in those places too; `C04_rfc_table_differs_only_on_push` says that
+    the two differ nowhere else.  The identifier rules of GOAWAY (§5.2, §7.2.6; C08 names them) are
+    demanded (`must`). -/
 namespace H3.Spec.ControlRules
 open H3.Varint
 
@@ -152,10 +158,14 @@ def laterFrame (server : Bool) (s : St) : CtlEv → Verdict × St
       (if maxPushOk s id then .ok else .may [H3_ID_ERROR], { s with maxPush := some id })
     else (.must [H3_FRAME_UNEXPECTED], s)                                       -- §7.2.7
   | .cancelPush _ =>
-    -- not constrained by the property; §7.2.3 has H3_ID_ERROR for ids never promised/allowed
+    -- server push: not named by the property (R-04b); §7.2.3 has H3_ID_ERROR for ids never
+    -- promised / never allowed (`verdictRfc`)
     (if server then .may [H3_ID_ERROR] else .may [H3_ID_ERROR, H3_FRAME_UNEXPECTED], s)
   | .goaway id =>
-    (if goawayOk server s id then .ok else .may [H3_ID_ERROR], { s with lastGoaway := some id })
+    -- §5.2 "Receiving a GOAWAY containing a larger identifier than previously received MUST be
+    -- treated as a connection error of type H3_ID_ERROR"; §7.2.6 the same for an identifier that is
+    -- not a client-initiated bidirectional stream id, sent to a client
+    (if goawayOk server s id then .ok else .must [H3_ID_ERROR], { s with lastGoaway := some id })
   | .malformed => (.must [H3_FRAME_ERROR], s)                                  -- §7.1
   | .truncatedFin => (.must [H3_CLOSED_CRITICAL_STREAM, H3_FRAME_ERROR], s)    -- §6.2.1 / §7.1
   | .fin => (.must [H3_CLOSED_CRITICAL_STREAM], s)                             -- §6.2.1
@@ -169,8 +179,8 @@ def verdict (server : Bool) (s : St) : Ev → Verdict × St
     if s.encoder then (.must [H3_STREAM_CREATION_ERROR], s) else (.ok, { s with encoder := true })
   | .stream .decoder =>
     if s.decoder then (.must [H3_STREAM_CREATION_ERROR], s) else (.ok, { s with decoder := true })
-  -- push streams are outside the property (§6.2.2: a server receiving one, §4.6: a push id the
-  -- client never allowed)
+  -- server push: not named by the property (R-04b); §6.2.2: a server receiving a push stream,
+  -- §4.6: a push id the client never allowed (`verdictRfc`)
   | .stream .push => (.may [H3_STREAM_CREATION_ERROR, H3_ID_ERROR], s)
   | .stream .wtUni => (.ok, s)
   | .stream .unknown => (.ok, s)        -- §6.2: "MUST NOT consider unknown stream types to be a connection error of any kind"
@@ -179,5 +189,56 @@ def verdict (server : Bool) (s : St) : Ev → Verdict × St
     -- a frame can only be seen on a control stream that exists
     if s.control then (if s.settings then laterFrame server s e else firstFrame s e)
     else (.ok, s)
+
+/-! ### RFC 9114 by the letter where the property is silent: server push
+
+    For an endpoint that never sends MAX_PUSH_ID and never PUSH_PROMISE (h3 has no API for either):
+    §6.2.2 "Only servers can push; if a server receives a client-initiated push stream, this MUST be
+    treated as a connection error of type H3_STREAM_CREATION_ERROR"; §4.6 "A client MUST treat receipt
+    of a push stream as a connection error of type H3_ID_ERROR when no MAX_PUSH_ID frame has been
+    sent"; §7.2.3 "If a CANCEL_PUSH frame is received that references a push ID greater than
+    currently allowed on the connection, this MUST be treated as a connection error of type
+    H3_ID_ERROR" (a client that allowed none) and "If a server receives a CANCEL_PUSH frame for a push
+    ID that has not yet been mentioned by a PUSH_PROMISE frame, this MUST be treated as a connection
+    error of type H3_ID_ERROR"; §7.2.7 "receipt of a MAX_PUSH_ID frame that contains a smaller value
+    than previously received MUST be treated as a connection error of type H3_ID_ERROR".
+    Engine `ctlrfc` judges with this table; the check reports where the code departs from it as a
+    NOTE (not a violation of C04). -/
+
+def laterFrameRfc (server : Bool) (s : St) : CtlEv → Verdict × St
+  | .cancelPush _ => (.must [H3_ID_ERROR], s)
+  | .maxPushId id =>
+    if server then
+      (if maxPushOk s id then .ok else .must [H3_ID_ERROR], { s with maxPush := some id })
+    else laterFrame server s (.maxPushId id)
+  | e => laterFrame server s e
+
+def verdictRfc (server : Bool) (s : St) : Ev → Verdict × St
+  | .stream .push => (if server then .must [H3_STREAM_CREATION_ERROR] else .must [H3_ID_ERROR], s)
+  | .ctl e =>
+    if s.control && s.settings then laterFrameRfc server s e else verdict server s (.ctl e)
+  | e => verdict server s e
+
+/-! ### The endpoint's own critical streams
+
+    §6.2.1: "If either control stream is closed at any point, this MUST be treated as a connection
+    error of type H3_CLOSED_CRITICAL_STREAM" (RFC 9204 §4.2 says the same of the QPACK streams) and
+    "the receiver MUST NOT request that the sender close the control stream".  A peer that sends
+    STOP_SENDING for the endpoint's control stream requests just that.  QUIC tells the sender about it
+    when it next uses the stream, so the error is demanded (`must`) where the endpoint has to write on
+    the stopped control stream — its SETTINGS at the end of the setup, the GOAWAY a server sends before
+    `accept` reports "no more requests" — and allowed (`may`) from the moment the request is in.  The
+    QPACK streams are not named by the property: `may`. -/
+
+inductive OwnStream where
+  | control | qpack
+deriving Repr, DecidableEq
+
+/-- the peer has asked the endpoint to stop sending on one of its own critical streams; `due` = the
+    endpoint has to write on that stream now -/
+def ownStopped (s : OwnStream) (due : Bool) : Verdict :=
+  match s, due with
+  | .control, true => .must [H3_CLOSED_CRITICAL_STREAM]
+  | _, _ => .may [H3_CLOSED_CRITICAL_STREAM]
 
 end H3.Spec.ControlRules
